@@ -110,6 +110,11 @@ def main():
     nrand = 4 if tier == 'quick' else 120
     for i in range(nrand):
         schemas.append((f'random{i}', random_schema(rng, i)))
+    # wide definitions: masks near and beyond the 56 / 64 bit boundaries of the bit reader / writer
+    def wide(name, n, nopt, kind='struct'):
+        fs = '\n'.join(f'  F{i} {["uint64", "string", "float64", "bool", "int64"][i % 5]}{" optional" if i < nopt and kind == "struct" else ""}' for i in range(n))
+        return (name, f'package verif.{name}\nstruct R root {{\n  W W\n  X uint64\n}}\n{kind} W {{\n{fs}\n}}\n')
+    schemas += [wide('wide40opt40', 40, 40), wide('wide57', 57, 3), wide('wide64', 64, 0), wide('wide33opt32', 33, 32), wide('oneof63', 63, 0, 'oneof')]
     # probes of known findings: schemas the compiler accepts whose generated code does not compile
     schemas.append(('probe-struct-dict-name', 'package t.a\nstruct A root {\n X B\n}\nstruct B dict(D) {\n F uint64\n}\n'))
     schemas.append(('probe-dict-struct-optional-recursion', 'package t.c\nstruct A root {\n X B\n}\nstruct B dict(B) {\n F uint64\n N B optional\n}\n'))
